@@ -90,7 +90,9 @@ CLAIM = {
              "subset as the oracle. Not proved: buffer-boundary effects (BOM split across the 8 KiB buffer) are outside the model; the "
              "line stamps of the round trip are given exactly for LF-terminated text only (for CRLF / CR the general bounds and the "
              "witness apply); non-canonical texts (stray quotes, text after a closing quote, blank lines) are covered by the general "
-             "theorems (totality, count, bounds, field boundaries) and by the correspondence stream, not by a round trip."),
+             "theorems (totality, count, bounds, field boundaries) and by the correspondence stream, not by a round trip. Known finding F41 (third session): with credit / debit columns the credit cell wins whenever it is not empty, so a row `0.00 | 400.00` "
+             "is booked as 0.00 - C16_credit_zero_loses_debit (a kernel-checked run of the model on that row) and not_C16_credit_minus_debit "
+             "(the statement `amount = credit - debit` is refuted); the witness statement is replayed on the real importer on every run."),
     "note": "YAML decoding, chrono date parsing and the regex engine are parameters of the model (decoded by the real "
             "libraries in the harness); the csv crate's record splitting is modelled (Model/CsvText.lean) and compared on every case, "
             "the main driver mode still takes the crate's cells while `drv csvtext` splits the text itself; okane's CLI decodes the "
@@ -112,6 +114,7 @@ THEOREMS = ["Okane.Import.C16_sign_credit_debit", "Okane.Import.C16_sign_amount"
             "Okane.Import.C16_inexact_conversion_rejected",
             "Okane.Import.C16_cell_total", "Okane.Import.C16_cell_accepts_exactly", "Okane.Import.C16_cell_minus_signs",
             "Okane.Import.C16_amount_written", "Okane.Import.C16_credit_debit_written",
+            "Okane.Import.C16_credit_zero_loses_debit", "Okane.Import.not_C16_credit_minus_debit",
             "Okane.Import.C16_template_accepts_exactly", "Okane.Import.C16_template_round_trip",
             "Okane.Import.C16_template_rejects", "Okane.Import.Cells.C16_cell_complete", "Okane.Import.Cells.C16_cell_reject",
             "Okane.Import.Cells.C16_cell_value", "Okane.Import.Cells.templateParse_total",
